@@ -471,3 +471,128 @@ def check_pool_lockset(ctx, fb, r_lock, r_drain):
     if writers != {'yaclib::FairThreadPool::Stop(lock)'}:
         ctx.report(r_drain, key, loop.where, 'the stopped bit is written by %s; only Stop(unique_lock&&), which is '
                    'reached after the drain test, may set it' % sorted(writers))
+
+
+# ------------------------------------------------------------------------------------------------ R-COUNT (pool)
+
+class _CountWalker(ExecWalker):
+    """ExecWalker + ('count-op', op, constant, loc) for compound assignments to FairThreadPool::_jobs_count"""
+
+    def on_node(self, fn, n, st):
+        super().on_node(fn, n, st)
+        if n['k'] in ('CompoundAssignOperator', 'BinaryOperator') and n.get('op', '').endswith('=') and \
+                n['op'] not in ('==', '!=', '<=', '>='):
+            lhs = fn.sn(n['ch'][0])
+            if lhs is not None and lhs.get('dn') == 'yaclib::FairThreadPool::_jobs_count':
+                rhs = fn.sn(n['ch'][1])
+                st.events.append(('count-op', n['op'], (rhs or {}).get('v'), fn.loc(n)))
+        elif n['k'] == 'UnaryOperator' and n.get('op') in ('++', '--'):
+            lhs = fn.sn(n['ch'][0])
+            if lhs is not None and lhs.get('dn') == 'yaclib::FairThreadPool::_jobs_count':
+                st.events.append(('count-op', n['op'], 1, fn.loc(n)))
+
+
+def check_pool_count(ctx, fb, rule):
+    """R-COUNT: _jobs_count packs (accepted-and-not-finished jobs) << s | want-stop | stopped.  The unit U added per
+    accepted job equals 1 << s where s is the shift NoJobs() applies; the two flag masks are distinct bits below U;
+    Submit adds U exactly on the enqueue path and nothing on the reject path; in Loop every Called job is counted out
+    (-= U) under the lock before the count is read again; nobody else changes the job part."""
+    P = 'yaclib::FairThreadPool'
+    fns = {}
+    for f in fb.fn.values():
+        if f.clsq == P and f.cfg is not None:
+            fns.setdefault(f.n + ('(lock)' if f.n == 'Stop' and f.params else ''), f)
+    for need in ('Submit', 'Loop', 'NoJobs', 'WasStop', 'WantStop', 'SoftStop', 'Stop(lock)'):
+        if need not in fns:
+            ctx.broken('R-COUNT: FairThreadPool::%s not found' % need)
+    key = 'R-COUNT FairThreadPool constants'
+
+    def const_of(f, opname):
+        for n in f.own_nodes():
+            if n['k'] == 'BinaryOperator' and n.get('op') == opname:
+                a, b = f.sn(n['ch'][0]), f.sn(n['ch'][1])
+                if 'dn' in a and a['dn'].endswith('::_jobs_count') or f.text(n['ch'][0]).endswith('_jobs_count'):
+                    return b.get('v')
+        return None
+    shift = const_of(fns['NoJobs'], '>>')
+    stopped = const_of(fns['WasStop'], '&')
+    want = const_of(fns['WantStop'], '&')
+    adds = [n for n in fns['Submit'].own_nodes() if n['k'] == 'CompoundAssignOperator' and n['op'] == '+=' and
+            (fns['Submit'].sn(n['ch'][0]) or {}).get('dn') == P + '::_jobs_count']
+    unit = fns['Submit'].sn(adds[0]['ch'][1]).get('v') if len(adds) == 1 else None
+    ctx.instance(rule, key, dict(unit=unit, shift=shift, stopped_mask=stopped, want_stop_mask=want))
+    if None in (shift, stopped, want, unit):
+        ctx.broken('R-COUNT: packed counter idiom of FairThreadPool not recognised (unit=%s shift=%s stopped=%s '
+                   'want=%s)' % (unit, shift, stopped, want))
+    pow2 = lambda x: x > 0 and x & (x - 1) == 0  # noqa: E731
+    if unit != 1 << shift or not pow2(stopped) or not pow2(want) or stopped == want or stopped >= unit or want >= unit:
+        ctx.report(rule, key, fns['NoJobs'].where, 'packed counter constants disagree: a job adds %s, NoJobs() shifts by '
+                   '%s, stopped mask %s, want-stop mask %s (need unit == 1 << shift and two distinct flag bits below '
+                   'the unit)' % (unit, shift, stopped, want))
+    # who changes the job part
+    key = 'R-COUNT FairThreadPool job-part writers'
+    allowed = {'Submit': ('+=',), 'Loop': ('-=',), 'SoftStop': ('|=',), 'Stop(lock)': ('|=',)}
+    nwr = 0
+    for name, f in sorted(fns.items()):
+        for n in f.own_nodes():
+            if n['k'] in ('CompoundAssignOperator', 'BinaryOperator', 'UnaryOperator') and \
+                    (n.get('op', '').endswith('=') and n['op'] not in ('==', '!=', '<=', '>=') or
+                     n.get('op') in ('++', '--')):
+                lhs = f.sn(n['ch'][0])
+                if lhs is not None and lhs.get('dn') == P + '::_jobs_count':
+                    nwr += 1
+                    if 'ctor' in f.flags:
+                        continue
+                    v = (f.sn(n['ch'][1]) or {}).get('v') if len(n.get('ch', [])) > 1 else 1
+                    ok = n['op'] in allowed.get(name, ()) and (
+                        (n['op'] in ('+=', '-=') and v == unit) or (n['op'] == '|=' and v in (stopped, want)))
+                    if not ok:
+                        ctx.report(rule, key, f.loc(n), '%s changes _jobs_count by "%s %s": only Submit (+= unit), Loop '
+                                   '(-= unit) and the two flag setters may write it' % (f.qn, n['op'], v))
+    ctx.instance(rule, key, dict(writes=nwr))
+    # Submit
+    key = 'R-COUNT FairThreadPool::Submit'
+    res = _CountWalker(fb, P, {P + '::_jobs', P + '::_jobs_count'}).run(fns['Submit'])
+    ctx.instance(rule, key, dict(paths=len(res)))
+    for st, _ in res:
+        ev = st.events
+        enq = [e for e in ev if e[0] == 'enqueue']
+        ops = [e for e in ev if e[0] == 'count-op']
+        held_ok = all(True for e in ops)
+        if bool(enq) != (len(ops) == 1 and ops[0][1] == '+=' and ops[0][2] == unit) or (not enq and ops):
+            ctx.report(rule, key, fns['Submit'].where, 'an accepted (enqueued) job must be counted exactly once (+= %s) and '
+                       'a rejected one not at all; this path enqueues %d job(s) and changes the count by %s' % (
+                           unit, len(enq), [(e[1], e[2]) for e in ops] or 'nothing') +
+                       ': Wait()/SoftStop() would return early or never')
+            break
+    # Loop
+    key = 'R-COUNT FairThreadPool::Loop'
+    w = _CountWalker(fb, P, {P + '::_jobs', P + '::_jobs_count'})
+    w.loop_bound = 2
+    res = w.run(fns['Loop'])
+    ctx.instance(rule, key, dict(paths=len(res)))
+    for st, _ in res:
+        ev = st.events
+        bad = None
+        for i, e in enumerate(ev):
+            if e[0] == 'finish' and e[1] == 'Call':
+                nxt = None
+                for x in ev[i + 1:]:
+                    if x[0] == 'count-op' or x[0] == 'pop' or (x[0] == 'branch' and any(
+                            c.split('::')[-1] in ('NoJobs', 'WantStop', 'WasStop') for c in x[1])):
+                        nxt = x
+                        break
+                if nxt is None:
+                    continue  # path cut by the loop bound right after the Call
+                if not (nxt[0] == 'count-op' and nxt[1] == '-=' and nxt[2] == unit):
+                    bad = e
+                    break
+        ncall = len([e for e in ev if e[0] == 'finish' and e[1] == 'Call'])
+        nsub = len([e for e in ev if e[0] == 'count-op' and e[1] == '-='])
+        if bad is None and nsub > ncall:
+            bad = ('', '', '', fns['Loop'].where)
+        if bad is not None:
+            ctx.report(rule, key, bad[3], 'a job that was Called is not counted out (-= %s) before the count is read again '
+                       '(or a job is counted out that was not run): NoJobs() never becomes true / becomes true early, so '
+                       'SoftStop + Wait hang or return before the work is done' % unit)
+            break
